@@ -8,7 +8,7 @@ PROP = 'C03'
 RULE = ("record lists written with VbsWriter (class API, write_many, context manager) or vbs_list_to_bytes and read back "
         "with VbsReader / vbs_bytes_to_list, blocked and unblocked: every single-record length 1..6000 in both formats "
         "(exhaustive), multi-record files whose prefixes and record ends fall on payload offsets 1008..1016 mod 1012, "
-        "contents with 0x00 / 0x40 runs and embedded zero lengths, the convenience functions with their default arguments on 0x40-filled data, the configured maximum changed at run time, one-shot iterators as input, files past 64 KiB, random lists. Non-trivial = more than one record, or a "
+        "contents with 0x00 / 0x40 runs and embedded zero lengths, the convenience functions with their default arguments on 0x40-filled data, the configured maximum changed at run time, one-shot iterators as input, files past 64 KiB, 499..2500 small records in one call through every API, random lists. Non-trivial = more than one record, or a "
         "record/prefix touching a block boundary, or special content; distinct = distinct (format, api, record list)")
 TRUSTED = ["Model/Vbs.lean models VbsWriter.write/close, VbsReader.__next__, Block1014, Unblock1014 and the BytesIO file "
            "position semantics (hand-written; tied by this correspondence)",
@@ -204,6 +204,12 @@ def explore(run, tier):
                 cases.append({'b': 0, 'lens': lens, 'api': 'batches'})
         for count, size in ((70, 1000), (66, 1008), (140, 997), (30, ml)):
             cases.append({'b': b, 'lens': [size] * count, 'api': apis[(count + b) % 3]})
+    # MANY records in one call (hundreds to thousands of small records: any batching inside the writer or the
+    # convenience functions must neither drop nor repeat one)
+    for count in ((499, 500, 501, 1203) if tier == 'quick' else (499, 500, 501, 750, 1203, 2500, 5000)):
+        for b in (0, 1):
+            for api in ('func', 'manygen', 'funcgen') + tuple(apis):
+                cases.append({'b': b, 'lens': [1 + (i * 7) % 5 for i in range(count)], 'api': api})
     # the configured maximum changed at run time: records up to the NEW maximum must survive
     for newmax in (ml + 2000, 2 * ml, 100, 1):
         for b in (0, 1):
